@@ -36,7 +36,7 @@ RAW_WEIGHTS = {
     "C02": {"rstrip": 3, "optimize_width": 3, "transpose": 2, "set_span": 2, "del_span": 1, "live_row_rep": 4, "live_cell_rep": 4,
             # a row wrapper obtained with clone=False and edited in place; extend_rows fed by an iterable
             # that fails half-way (caller catches) or that holds the same Row object several times
-            "live_row_op": 5, "extend_rows_odd": 2},
+            "live_row_op": 5, "extend_rows_odd": 2, "live_row_rep_ge": 2},
     # C07 quantifies over histories of public Table/Row operations: the
     # repeated-setters on live wrappers (C02's quantifier) are not in it
     # (the repeated-setters on live wrappers are a known C02 finding that leaves the live table stale: kept out of C10)
@@ -402,6 +402,8 @@ class TableEngine:
             # shapes other producers write: column declarations inside wrappers, a span with covered cells
             if rng.chance(0.15, "wrapcols"):
                 spec["wrap_cols"] = rng.choice(["columns", "header"], "wrapkind")
+            if rng.chance(0.12, "prechildren"):
+                spec["pre_children"] = True
             if rng.chance(0.12, "initspan") and len(rows) >= 2:
                 r0, r1 = rows[0], rows[1]
                 if r0["cells"] and r1["cells"] and (r0.get("r", 1) == 1) and (r1.get("r", 1) == 1) and r0["cells"][0].get("r", 1) == 1 and r1["cells"][0].get("r", 1) == 1:
@@ -670,6 +672,9 @@ class TableEngine:
             op["how"] = rng.choice(["fails", "same_object"], "oddhow")
             if op["how"] == "fails":
                 op["k"] = rng.randint(0, len(op["rows"]), "failat")
+        elif name == "live_row_rep_ge":
+            op["i"] = rng.randint(0, 30, "gei")
+            op["k"] = rng.choice([None, None, 1, 2, 3, self.cfg["max_rep"]], "k")
         elif name == "live_row_rep":
             op["y"] = self._pick_y(rng, tv, beyond=False) if tv.height else 0
             op["k"] = rng.choice([1, 1, 2, 3, self.cfg["max_rep"]], "k")
